@@ -152,19 +152,46 @@ def install(sched):
     """put traced locks on the shared objects of the request pipeline; returns an undo function"""
     from cpppo.server.enip import device, logix, ucmm
     saved = []
+    runs = []
     targets = [(ucmm.UCMM.parser, "cip"), (device.Connection_Manager.parser_service_path, "psp"), (device.Object.parser, "obj"),
                (device.Connection_Manager.parser, "cm")]
     for obj, name in targets:
         saved.append((obj, "lock", obj.lock))
         obj.lock = TracedLock(sched, name)
+        # one more scheduling point in the middle of every run of a shared parser (its lock is held: other threads can only
+        # execute code that does not take it -- which is exactly what must not look at the parser)
+        orig = obj.run
+
+        def traced_run(*a, _orig=orig, _name=name, **kw):
+            n = 0
+            for item in _orig(*a, **kw):
+                n += 1
+                if n == 3:
+                    sched.point("mid:" + _name)
+                yield item
+        obj.run = traced_run
+        runs.append(obj)
     saved.append((logix.setup, "lock", logix.setup.lock))
     logix.setup.lock = TracedLock(sched, "setup")
     saved.append((ucmm.UCMM, "lock", ucmm.UCMM.lock))
     ucmm.UCMM.lock = TracedLock(sched, "ucmm")
     SyncList.sched = sched
+    # the tag loop of logix.setup (first request of a freshly started simulator): one scheduling point per tag
+    orig_setup_tag = logix.setup_tag
+
+    def traced_setup_tag(key, val):
+        sched.point("tag:setup")
+        return orig_setup_tag(key, val)
+    logix.setup_tag = traced_setup_tag
+    saved.append((logix, "setup_tag", orig_setup_tag))
 
     def undo():
         SyncList.sched = None
         for obj, attr, val in saved:
             setattr(obj, attr, val)
+        for obj in runs:
+            try:
+                del obj.run
+            except AttributeError:
+                pass
     return undo
